@@ -339,6 +339,77 @@ def validate_corpus(ctx, quick=True):
         ctx.cov['negative_controls_rejected'] += n_rej
 
 
+def run_mutant_case(task, cd):
+    """worker side: a mutated corpus file, written beside the file it was made from, run with tracing."""
+    from harness import inproc
+    cwd = task['cwd']
+    path = os.path.join(cwd, 'verif-mutant-%d.case' % os.getpid())
+    with open(path, 'w', encoding='utf-8', errors='surrogateescape') as fh:
+        fh.write(task['text'])
+    try:
+        r = inproc.run_main([os.path.basename(path)], cd, cwd=cwd, trace=True)
+    finally:
+        try:
+            os.remove(path)
+        except OSError:
+            pass
+    return dict(exit=r['exit'], exception=r['exception'], stdout=r['stdout'][:200], stderr=r['stderr'][-400:],
+                events=r.get('trace', []), cwd_after=r['cwd_after'], cwd_before=r['cwd_before'],
+                env_changed=r['env_changed'], sandboxes_left=cd.sandboxes())
+
+
+def validate_corpus_mutants(ctx, n):
+    """Fault-heavy real executions: seeded random mutants of the corpus files (token deleted / doubled / replaced by
+    an extreme token / swapped / quoted, text cut short).  Whatever a mutant is - invalid at any stage, failing at
+    any step, or still valid - its execution must be a behaviour of PhaseExec, leave no sandbox and restore the
+    state of the process.  (Whether the OUTCOME is permitted for the mistake is C18's question, not asked here.)"""
+    import random
+    from harness.props import c18
+    base = prepare_corpus(ctx)
+    os.system('chmod -R a+rwX %s' % base)
+    rnd = random.Random(ctx.seed + 11)
+    seeds = []
+    for p in corpus_cases(base, ['test/exactly-cases', 'err-msg-tests']):
+        try:
+            t = open(p, encoding='utf-8').read()
+        except (OSError, UnicodeDecodeError):
+            continue
+        if 'python' in t.lower() or 'python' in p.lower():
+            continue     # the interpreter is not executable for the unprivileged user
+        seeds.append((p, t))
+    tasks = []
+    for _ in range(n):
+        p, t = rnd.choice(seeds)
+        tasks.append(dict(text=c18.mutate(rnd, t), cwd=os.path.dirname(p), seed=os.path.relpath(p, base)))
+    with ctx.pool(unprivileged=True) as pool:
+        obs = pool.map('harness.trace_exec:run_mutant_case', tasks, deadline=20, chunk=8)
+    items, mix, skipped = [], {}, 0
+    for j, (t, o) in enumerate(zip(tasks, obs)):
+        if o.get('no_termination') or o.get('worker_died') or o.get('harness_exception') or o.get('exception'):
+            skipped += 1         # (termination and internal errors of mutants: C18)
+            continue
+        ctx.count()
+        ident = (o['stdout'].strip().splitlines() or ['?'])[0]
+        mix[ident] = mix.get(ident, 0) + 1
+        if ident not in ('PASS', 'SKIPPED'):
+            ctx.nontrivial('mutant:' + t['text'])
+        rec = dict(kind='mutant', seed_file=t['seed'], text=t['text'],
+                   obs={k: o[k] for k in ('exit', 'stdout', 'stderr', 'cwd_after', 'cwd_before', 'env_changed',
+                                          'sandboxes_left')})
+        if ident == 'INTERNAL_ERROR':
+            skipped += 1         # an implementation error is C18's finding; its trace ends wherever the exception struck
+            continue
+        if o['cwd_after'] != o['cwd_before'] or o['env_changed']:
+            ctx.fail('ProcessStateRestored mutant of %s' % t['seed'], rec)
+        if o['sandboxes_left']:
+            ctx.fail('RemovedAtEnd mutant of %s' % t['seed'], rec)
+        if o['events']:
+            items.append(dict(id='mutant %d of %s' % (j, t['seed']), events=o['events'], cwd0=t['cwd'],
+                              argv=['(mutant)'], files={'(mutant).case': t['text']}))
+    ctx.cov.setdefault('corpus', {})['mutants'] = dict(generated=n, judged=n - skipped, outcome_mix=mix)
+    validate(ctx, items, 'corpus mutants')
+
+
 def replay(ctx, r):
     print(json.dumps(r, indent=1, default=str)[:6000])
     if 'trace' in r:
